@@ -2,7 +2,10 @@
 (* C27 -- transactions built by the wallet (blockchain/txbuilder, account/builder.go).   *)
 (*                                                                                      *)
 (* A case is a record                                                                   *)
-(*   accounts : sequence of [name, progs]      control programs owned by each account   *)
+(*   accounts : sequence of [name, progs, quorum, nkeys]   programs owned, M-of-N keys    *)
+(*   cosigners: sequence of [acct, order]      for every multi-key account the key        *)
+(*              holders (positions 1..nkeys) that sign, in signing order: ANY quorum of   *)
+(*              distinct holders, in ANY order, must yield a fully signed, valid tx       *)
 (*   funding  : sequence of [id, acct, asset, amt, prog]   unspent outputs in the wallet*)
 (*   actions  : sequence of                                                              *)
 (*        [kind |-> "spend",      acct, asset, amt]        (already merged per acct/asset)*)
@@ -48,6 +51,18 @@ Promised(c, s) == SumAmt(c.actions, {i \in Recips(c) : c.actions[i].asset = s})
 Balanced(c) == \A s \in Assets(c) :
                  IF s = "BTM" THEN BNLe(BNAdd(Promised(c, s), MinFee), Requested(c, s))
                  ELSE Requested(c, s) = Promised(c, s)
+
+(* the signing plan is a legitimate one: every multi-key account has exactly one plan of exactly *)
+(* quorum distinct holders of that account                                                       *)
+AcctOf(c, a) == c.accounts[CHOOSE j \in Idx(c.accounts) : c.accounts[j].name = a]
+SignersOk(c) ==
+  /\ \A j \in Idx(c.accounts) : c.accounts[j].nkeys > 1 =>
+        Cardinality({k \in Idx(c.cosigners) : c.cosigners[k].acct = c.accounts[j].name}) = 1
+  /\ \A k \in Idx(c.cosigners) :
+        LET a == AcctOf(c, c.cosigners[k].acct)   o == c.cosigners[k].order IN
+        /\ Len(o) = a.quorum
+        /\ \A x \in Idx(o) : o[x] \in 1..a.nkeys
+        /\ \A x, y \in Idx(o) : x # y => o[x] # o[y]
 
 (* ---- the post-condition of a built template *)
 InputsOk(c) ==
@@ -112,8 +127,9 @@ Rules(c) ==
    debit     |-> (c.built /\ InputsOk(c)) => DebitOk(c),
    fee       |-> (c.built /\ InputsOk(c) /\ WellScoped(c) /\ BNLe(Promised(c, "BTM"), Requested(c, "BTM"))) => FeeOk(c),
    conserved |-> (c.built /\ InputsOk(c) /\ WellScoped(c) /\ Balanced(c)) => Conserved(c),
-   signed    |-> c.built => c.signed,
-   valid     |-> (c.built /\ WellScoped(c) /\ Balanced(c)) => c.valid]
+   signers   |-> SignersOk(c),
+   signed    |-> (c.built /\ SignersOk(c)) => c.signed,
+   valid     |-> (c.built /\ SignersOk(c) /\ WellScoped(c) /\ Balanced(c)) => c.valid]
 Ok(c) == LET r == Rules(c) IN
          r.built /\ r.notbuilt /\ r.inputs /\ r.recipients /\ r.change /\ r.debit /\ r.fee /\ r.conserved /\ r.signed /\ r.valid
 =============================================================================
